@@ -31,6 +31,7 @@ def hazards_of(ctx, b):
     """[(kind, detail, bb, extra)]"""
     an = ctx.an(b)
     out = []
+    folded = set()
     for bi, t in b.terminators('assert'):
         if bi not in an.cfg.reach:
             continue
@@ -68,7 +69,14 @@ def hazards_of(ctx, b):
                 kind = rng[2].split('::')[-1]
                 if kind == 'RangeFull':
                     continue
-                out.append(('slice', '%s[%s]' % (base_descr(b, ct[2][0]), kind), bi, {'base': strip_all(ct[2][0]), 'range': rng}))
+                inner = strip_all(ct[2][0])
+                if kind == 'RangeTo' and is_call(inner, 'Index::index', 'IndexMut::index_mut') and inner[2][1][0] == 'agg' and (inner[2][1][2] or '').split('::')[-1] == 'RangeFrom':
+                    # base[a..][..n] is base[a..a+n]: one hazard, that of the range it spells (the inner RangeFrom is folded into it)
+                    folded.add(repr(inner))
+                    rng2 = ('agg', rng[1], (rng[2] or '').replace('RangeTo', 'Range'), rng[3], (('start', dict(inner[2][1][4])['start']), ('end', ('bin', 'Add', dict(inner[2][1][4])['start'], dict(rng[4])['end']))))
+                    out.append(('slice', '%s[Range]' % base_descr(b, inner[2][0]), bi, {'base': strip_all(inner[2][0]), 'range': rng2}))
+                    continue
+                out.append(('slice', '%s[%s]' % (base_descr(b, ct[2][0]), kind), bi, {'base': strip_all(ct[2][0]), 'range': rng, 'self': repr(('call', d, ct[2], ct[3])) if len(ct) > 3 else None, 'term': ct}))
             else:
                 out.append(('index', base_descr(b, ct[2][0]), bi, {'index': rng, 'base': strip_all(ct[2][0])}))
         elif last in ('copy_from_slice',):
@@ -77,6 +85,8 @@ def hazards_of(ctx, b):
                 and len(ct[2]) >= 2 and (b.blocks[bi]['t'].get('arg_tys') or ['', ''])[1] == 'f32':
             # lyon_geom debug-asserts tolerance >= EPSILON * EPSILON (and > 0) in its flattening / approximation routines
             out.append(('extern', 'lyon tolerance', bi, {'tol': ct[2][1]}))
+    if folded:
+        out = [h for h in out if not (h[0] == 'slice' and h[1].endswith('[RangeFrom]') and h[3].get('term') is not None and repr(strip_all(h[3]['term'])) in folded)]
     return out
 
 
